@@ -343,6 +343,7 @@ func (P) Generate(g *core.Gen) {
 	genSegwitInactive(g)
 	genFreeArea(g)
 	genMinHighEdge(g)
+	genStalePool(g)
 }
 
 func genIndependent(g *core.Gen) {
@@ -826,5 +827,56 @@ func genMinHighEdge(g *core.Gen) {
 		s.minFree = g.R.Pick(0, 1000)
 		permute(s, g.R)
 		g.Case("minhigh-edge", true, s.line())
+	}
+}
+
+// genStalePool: a real mempool filled on a branch that is then abandoned; the
+// pool is not told.  Transactions whose inputs only existed on the abandoned
+// branch, and everything that descends from them, must stay out; the rest must
+// still give a valid template.  (The premise of the "generation succeeds"
+// clause does not hold here - the tip moved backwards - but every other clause
+// does.)
+func genStalePool(g *core.Gen) {
+	for c := 0; c < g.N(40, 300); c++ {
+		pg := newPoolGen(g.R, c%2)
+		pg.s.src = "pool"
+		// build the pool against the main tip ...
+		n := 2 + g.R.Intn(6)
+		f := worldBlocks - 1 - g.R.Intn(10)
+		for i := 0; i < n; i++ {
+			high := g.R.Chance(1, 2)
+			k := pg.pick(func(u utxo) bool {
+				return pg.spendable(u) && !u.cb && (int(u.height) > f) == high
+			})
+			if k < 0 {
+				continue
+			}
+			pg.add([]inRef{pg.ref(k)}, pg.randKinds(2+g.R.Intn(2)), g.R.Range(1000, 50000))
+		}
+		pg.randomPool(poolOpts{n: 1 + g.R.Intn(6), childProb: 85, maxFee: 40000, zeroFeePct: 5, anyKind: true})
+		// ... then abandon everything above f
+		pg.s.roF, pg.s.roK = f, worldBlocks-f+1+g.R.Intn(2)
+		pg.s.pb, pg.s.admPre = true, true
+		pg.s.deriveFacts()
+		tip := pg.s.chainTimes()
+		pg.s.now = tip[len(tip)-1] + 1200
+		for i := range pg.s.txs {
+			for k := range pg.s.txs[i].ins {
+				r := &pg.s.txs[i].ins[k]
+				if r.kind == 'u' && !pg.s.available(pg.w.catalog[r.k]) {
+					*r = inRef{kind: 'g', k: r.k}
+				}
+			}
+		}
+		// the descriptors keep the fees the pool computed at admission
+		fees := make([]int64, len(pg.s.txs))
+		for i, t := range pg.s.txs {
+			fees[i] = t.fee
+		}
+		s := pg.finish(false)
+		if !keysDistinct(s) {
+			continue
+		}
+		g.Case("stale-pool", len(s.txs) > 0, s.line())
 	}
 }
